@@ -75,8 +75,14 @@ class BlobManager:
         def get_files_in_blob_dir() -> typing.Set[str]:
             if not self.blob_dir:
                 return set()
+            def is_file(item) -> bool:
+                try:
+                    return item.is_file()
+                except OSError:  # an entry that cannot be examined (ELOOP, ENOTDIR, EACCES, a dead mount) is no blob file
+                    return False
+
             return {
-                item.name for item in os.scandir(self.blob_dir) if is_valid_blobhash(item.name) and item.is_file()
+                item.name for item in os.scandir(self.blob_dir) if is_valid_blobhash(item.name) and is_file(item)
             }
 
         in_blobfiles_dir = await self.loop.run_in_executor(None, get_files_in_blob_dir)
